@@ -55,15 +55,17 @@ TRUSTED = [
     'python-docx load/save, lxml serialisation: not modelled (observations go through the reader)',
     'matcher stages after the exact one (smart quotes, Markdown-stripped target, fuzzy regex): answers recorded from the running implementation and fed to the model; their contract (in-range result) is checked on every call',
     'character tables (isspace, \\w) of the inline-Markdown and trimming models: instantiated tables compared with Python on the generator alphabet',
-    'block insertions (new text with a line break or heading), edits inside / overlapping pending insertions, anchors inside marks and cross-paragraph targets are OUTSIDE the engine model: there only the oracles decide (findings D10, D26, D30, D34)']
+    'edits inside / overlapping pending insertions, anchors inside marks and cross-paragraph targets are OUTSIDE the engine model: there only the oracles decide (findings D26, D30, D34); block insertions (line breaks / heading lines in the new text) are inside the model']
 
-def run_property(pid, tier, seed, props_files, kinds, judge, rule, n_quick=300, n_thorough=6000, extra_trusted=()):
+def run_property(pid, tier, seed, props_files, kinds, judge, rule, n_quick=300, n_thorough=6000, extra_trusted=(), targeted=None, after=None):
     ck = core.Check(pid, tier, seed)
     ck.proof_gate(props_files, extra_trusted=TRUSTED + list(extra_trusted))
     extra = []
     for fid, case in core.finding_cases(pid):
         if case and 'edits' in case:
             d = dict(case['doc']); d.setdefault('features', ['finding:%s' % fid]); extra.append((d, [tuple(e) for e in case['edits']]))
+    if targeted: extra += targeted(random.Random(seed + 7919), tier)
     distinct = explore(ck, tier, seed, kinds, judge, n_quick=n_quick, n_thorough=n_thorough, extra_cases=extra)
+    if after: after(ck, random.Random(seed + 104729), tier)
     return ck.finish(rule=rule + ' Replays of the recorded findings and of the repaired defects for this property run first. '
                      'non-trivial = at least one edit applied; distinct by (document, batch).', distinct=len(distinct))
